@@ -59,7 +59,9 @@ impl Rec {
     /// The relation-position specification, read off the AST by pattern matching (independent of
     /// the `visit(with = ...)` attributes): FROM/JOIN table factors, INSERT/REPLACE, DELETE (MySQL
     /// multi-table targets), TRUNCATE, COPY ... FROM, COPY INTO targets, plus the statement kinds
-    /// whose table name is hooked today.
+    /// whose table name is hooked today.  Every position listed here is expected to be reported by
+    /// `pre_visit_relation`; for a `Vec<ObjectName>` position (DELETE targets, hooked per element by the
+    /// derive) that means every element, each at its own address.
     fn stmt_relations(&mut self, s: &Statement) {
         match s {
             Statement::Insert(i) => self.rel(&i.table_name, "Insert.table_name"),
@@ -246,7 +248,7 @@ pub fn generated_statements(sch: &SchemaJ, count: usize, seed: u64, seen: &mut H
 }
 
 pub fn corr(dir: &str, seed: u64, tier: &str) -> Report {
-    let mut r = Report::new("C16", "corr.visit", "AST-first: statements deserialised from random documents of the schema (every Statement variant in turn; quick 1500, thorough 8000) and every distinct statement tree of the parsed corpus (13 dialects; quick: a seeded sample of about 4000 covering every Statement variant) is reflected through serde, checked against the schema and sent with a list of break indices (none, 0, 1, middle, last; thorough: every index for walks of at most 48 callbacks); real = callback sequence + Break/Continue of the real Visit walk and whether the real VisitMut walk (identity visitor) gives the same and leaves the tree ==; model = Lean traversal with hooks looked up in Gen/Schema; non-trivial = distinct callback sequences");
+    let mut r = Report::new("C16", "corr.visit", "AST-first: statements deserialised from random documents of the schema (every Statement variant in turn; quick 1500, thorough 8000) and every distinct statement tree of the parsed corpus (13 dialects; quick: a seeded sample of about 4000 covering every Statement variant) is reflected through serde, checked against the schema and sent with a list of break indices (none, 0, 1, middle, last; thorough: every index for walks of at most 48 callbacks); real = callback sequence + Break/Continue of the real Visit walk and whether the real VisitMut walk (identity visitor) gives the same and leaves the tree ==; model = Lean traversal with hooks looked up in Gen/Schema (a field-level hook on a Vec field fires around each element); non-trivial = distinct callback sequences");
     let c = load_corpus();
     let sch = reflect::load_schema();
     let mut errs = vec![];
@@ -318,7 +320,7 @@ pub fn corr(dir: &str, seed: u64, tier: &str) -> Report {
 pub fn oracle(c: &Corpus, _seed: u64, tier: &str) -> Vec<Report> {
     let sch = reflect::load_schema();
     let mut r = Report::new("C16", "oracle.visit-laws", "every distinct statement tree of the parsed corpus plus AST-first generated statements (random documents of the schema through Deserialize, every Statement variant), real code only: callbacks well nested; each post gets the node (address and Display) of its pre; pre addresses distinct per kind; number of pre_expr/statement/query/table_factor callbacks = number of nodes of that type in the serde-reflected tree; Visit and VisitMut deliver the same sequence; identity VisitMut leaves the tree ==; Break at k delivers exactly k+1 callbacks (k = 0, 1, middle, last; thorough: all k up to 64); non-trivial = distinct callback sequences");
-    let mut r2 = Report::new("C16", "oracle.relation-coverage", "every ObjectName in a FROM/JOIN (TableFactor::Table), INSERT, DELETE-target, TRUNCATE, COPY FROM / COPY INTO target position or in one of the statement kinds hooked today, found by pattern matching on the real AST (independent of the visit attributes), must be reported by pre_visit_relation (compared by address); non-trivial = distinct (position, statement variant)");
+    let mut r2 = Report::new("C16", "oracle.relation-coverage", "every ObjectName in a FROM/JOIN (TableFactor::Table), INSERT, DELETE-target (each element of Delete.tables), TRUNCATE, COPY FROM / COPY INTO target position or in one of the statement kinds hooked today, found by pattern matching on the real AST (independent of the visit attributes), must be reported by pre_visit_relation (compared by address), the elements of a Vec position in the order of the Vec; non-trivial = distinct (position, statement variant)");
     r.exhaustive = true;
     r2.exhaustive = true;
     let mut errs = vec![];
@@ -426,6 +428,22 @@ pub fn oracle(c: &Corpus, _seed: u64, tier: &str) -> Vec<Report> {
                 r2.fail(format!("relation-not-hooked/{label}"), dn, Opts::DEFAULT, s, format!("{dbg} is never passed to pre_visit_relation"));
             } else {
                 r2.count(&format!("hooked/{label}"));
+            }
+        }
+        // positions inside a Vec (DELETE targets: hook per element; TRUNCATE targets: hooked field of each
+        // element): the callbacks come in the order of the Vec
+        for label in ["Delete.tables", "TruncateTableTarget.name"] {
+            let want: Vec<usize> = rec.expected_rel.iter().filter(|x| x.1 == label).map(|x| x.0).collect();
+            if want.len() < 2 {
+                continue;
+            }
+            let set: HashSet<usize> = want.iter().cloned().collect();
+            let got: Vec<usize> = rec.evs.iter().filter(|e| !e.post && e.hook == 1 && set.contains(&e.addr)).map(|e| e.addr).collect();
+            r2.evaluations += 1;
+            if got.len() == want.len() && got != want {
+                r2.fail(format!("relation-order/{label}"), dn, Opts::DEFAULT, s, "relation callbacks of the elements are not in the order of the Vec".to_string());
+            } else {
+                r2.count(&format!("in-order/{label}"));
             }
         }
         // and nothing else is reported as a relation
